@@ -1,6 +1,6 @@
 # C19 - GradientDescent returns its best accepted iterate within the iteration cap (runtime monitor, asan variant)
 PROPS = {
-    "C19": dict(variant="asan", cases=(400, 6000), timeout=120, chunk=10, level="exploration", min_nontrivial=40,
+    "C19": dict(variant="asan", cases=(2000, 20000), timeout=120, chunk=10, level="exploration", min_nontrivial=200,
                 rule="case = one optimisation problem (objective/gradient pair: convex quadratic with condition number 1..1e6, Rosenbrock chain / "
                      "double well, smooth convex non-quadratic, non-convex trigonometric; dims 1..4 (thorough ..6); projection: none, identity, "
                      "box, ball, half-space; feasible or infeasible start; initial step-size 1e-3..1e3, increase/decrease coefficients, "
